@@ -37,22 +37,27 @@ from holopy.inference import (prior, AlphaModel, ExactModel, LimitOverlaps, Nmpf
 NUM = {"float", "float_tiny", "float_huge", "neg_zero", "int", "np_float64", "np_int64", "zero_d_array", "np_float32"}
 CPLX = {"complex", "np_complex128", "complex_neg", "np_complex_neg"}
 SEQ = {"list", "tuple", "array1d", "list_of_np"}
-PRI = {"prior", "derived_prior", "ufunc_prior"}
+PRI = {"prior", "derived_prior", "ufunc_prior", "prior_half_open", "prior_unbounded", "prior_guess_on_bound"}
 
 
 def value(kind, n=3, positive=False):
     base = [1.25, 2.5, 3.75][:n]
+    # built lazily: a kind that cannot be constructed must not take the others with it
     return {
-        "float": 1.47, "float_tiny": 1e-300, "float_huge": 1e300, "neg_zero": -0.0, "int": 2,
-        "complex": 1.5 + 0.1j, "np_float64": np.float64(1.47), "np_int64": np.int64(2),
-        "np_complex128": np.complex128(1.5 + 0.1j),
-        "complex_neg": 1.5 - 0.1j, "np_complex_neg": np.complex128(1.5 - 0.1j), "zero_d_array": np.array(1.47), "np_float32": np.float32(1.5),
-        "none_explicit": None, "list": list(base), "tuple": tuple(base), "array1d": np.array(base),
-        "list_of_np": [np.float64(b) for b in base],
-        "prior": prior.Uniform(1.0, 2.0), "derived_prior": prior.Uniform(1.0, 2.0) * 2 + 0.5,
-        "ufunc_prior": np.sqrt(prior.Uniform(1.0, 4.0)), "complex_prior": prior.ComplexPrior(prior.Uniform(1.5, 1.6), 0.01),
-        "nested_object": Sphere(n=1.5, r=0.3, center=[9.0, 9.0, 9.0]),
-    }[kind]
+        "float": lambda: 1.47, "float_tiny": lambda: 1e-300, "float_huge": lambda: 1e300, "neg_zero": lambda: -0.0,
+        "int": lambda: 2, "complex": lambda: 1.5 + 0.1j, "np_float64": lambda: np.float64(1.47),
+        "np_int64": lambda: np.int64(2), "np_complex128": lambda: np.complex128(1.5 + 0.1j),
+        "complex_neg": lambda: 1.5 - 0.1j, "np_complex_neg": lambda: np.complex128(1.5 - 0.1j),
+        "zero_d_array": lambda: np.array(1.47), "np_float32": lambda: np.float32(1.5),
+        "none_explicit": lambda: None, "list": lambda: list(base), "tuple": lambda: tuple(base),
+        "array1d": lambda: np.array(base), "list_of_np": lambda: [np.float64(b) for b in base],
+        "prior_half_open": lambda: prior.Uniform(0, np.inf), "prior_unbounded": lambda: prior.Uniform(-np.inf, np.inf),
+        "prior_guess_on_bound": lambda: prior.Uniform(1.0, 2.0, guess=1.0),
+        "prior": lambda: prior.Uniform(1.0, 2.0), "derived_prior": lambda: prior.Uniform(1.0, 2.0) * 2 + 0.5,
+        "ufunc_prior": lambda: np.sqrt(prior.Uniform(1.0, 4.0)),
+        "complex_prior": lambda: prior.ComplexPrior(prior.Uniform(1.5, 1.6), 0.01),
+        "nested_object": lambda: Sphere(n=1.5, r=0.3, center=[9.0, 9.0, 9.0]),
+    }[kind]()
 
 
 class Entry:
@@ -152,7 +157,7 @@ def run(ctx):
     quick = ctx.tier == "quick"
     rng = random.Random(ctx.seed)
     tmp = tempfile.mkdtemp(prefix="c15_")
-    ctx.rule = ("TLC enumerates every pair of value kinds (23 kinds: python/numpy scalars incl. extreme "
+    ctx.rule = ("TLC enumerates every pair of value kinds (26 kinds: python/numpy scalars incl. extreme "
                 "magnitudes and -0.0, complex, 0-d arrays, lists/tuples/arrays, explicit None, nested objects, "
                 "plain/derived/ufunc/complex priors) x file/stream x 1..3 cycles; each applicable vector is "
                 "replayed on 28 catalogue entries covering the exported scatterer, prior, theory, strategy and "
@@ -163,7 +168,7 @@ def run(ctx):
     try:
         g = ctx.tlc_graph("Serialize", "Serialize.cfg")
         inits = [g.states[s] for s in g.init]
-        n = 0
+        n = nbuilt = nbuildfail = 0
         for ent in CATALOGUE:
             cases = [st for st in inits if st["slots"][0] in ent.k1 and st["slots"][1] in ent.k2]
             if quick and len(cases) > 40:
@@ -186,7 +191,9 @@ def run(ctx):
                         obj = ent.build(value(k1, ent.seqlen), value(k2, ent.seqlen))
                 except Exception:
                     ctx.trace_ok()      # not a valid constructor argument for this class: outside the quantifier
+                    nbuildfail += 1
                     continue
+                nbuilt += 1
                 key_kinds = "+".join(sorted({k for k in (k1, k2) if k in ("np_float32", "none_explicit")})) or "ok_kinds"
                 bad = None
                 try:
@@ -224,6 +231,11 @@ def run(ctx):
                 else:
                     ctx.trace_ok()
         ctx.sample({"entry": ent.name, "kinds": [k1, k2], "target": st["target"], "cycles": 3})
+        ctx.notes["catalogue_objects_built"] = nbuilt
+        ctx.notes["catalogue_combinations_not_constructible"] = nbuildfail
+        # vacuity guard: on the unchanged tree 9 in 10 combinations are constructible
+        if nbuilt < 4 * nbuildfail and not ctx.violations:
+            raise harness.MachineryError("only %d of %d catalogue combinations could be constructed" % (nbuilt, nbuilt + nbuildfail))
 
         # ---------------- models: names, ties, value-to-place mapping survive reload ---------------------
         import c11
